@@ -250,9 +250,16 @@ def record_acq(sc):
                 events.append(ev)
             if cls in ("LCBSC", "MaxVar", "RandMaxVar") and sc.get("grad"):
                 rs = np.random.RandomState(sc["seed"] + 3)
-                for _ in range(8):
+                for it in range(8):
                     x = np.array([rs.uniform(b[0] + 0.1 * (b[1] - b[0]), b[1] - 0.1 * (b[1] - b[0])) for b in sc["bounds"]])
                     t = 2
+                    if it % 2:
+                        # history on one acquisition object: the value at x, then the surrogate learns (new evidence, and every
+                        # other time re-optimised hyperparameters), then the gradient at the SAME x - it is the derivative of the
+                        # acquisition function of the surrogate as it is now
+                        acq.evaluate(x, t)
+                        xn = np.array([[rs.uniform(b[0], b[1]) for b in sc["bounds"]]])
+                        gp.update(xn, np.array([float(np.sum((xn - 0.3) ** 2)) + 0.5]), optimize=bool(it % 4 == 1))
                     g = np.asarray(acq.evaluate_gradient(x, t), dtype=float).reshape(-1)
                     h = 1e-5
                     fd = []
